@@ -112,6 +112,10 @@ def through_run_games(ctx, games):
 def run(ctx, model=None):
     ctx.extra["rule"] = RULE
     rng = random.Random(ctx.seed * 6700417 + 2)
+    import analysis as _r5
+    _r5rng = random.Random(ctx.seed + 555)
+    _r5.round5_passes(ctx, _r5rng, [gen.stopping_game(_r5rng, extra_finals=0.25) for _ in range(3 if ctx.quick() else 40)] +
+                      [gen.slow_cycle_game(_r5rng), gen.decimal_tie_game(_r5rng)], "rewards", fields=[2, 3])
     from props.c10 import example_games
     from boards import board_games
     for g in example_games():
@@ -179,6 +183,9 @@ def known_findings(ctx):
 
 
 def replay(ctx, viol):
+    import analysis as _r5
+    if _r5.replay_round5(ctx, viol, fields=[2, 3]):
+        return
     g = viol["input"]["game"]
     g["transition_list"] = [[tuple(t) for t in row] for row in g["transition_list"]]
     check_case(ctx, g, None)
